@@ -119,7 +119,7 @@ var props = map[string]propCfg{
 	"C04": {Focus: "C04", Arms: []string{"clean", "late", "prefetch", "cache", "redis"}, Rare: []string{"exhaust"}, RareEvery: 1500, Probes: []string{"content_checked", "cache_hit_last_quarter"}},
 	"C05": {Focus: "C05", Arms: []string{"clean"}, Rare: []string{"exhaust"}, RareEvery: 1000, Probes: []string{"c05_reply_checked", "c05_wireid_checked", "c05_exhaust_completed", "c05_exhaust_rollover_seen"}},
 	"C06": {Focus: "C06", Arms: []string{"clean"}, Probes: []string{"c06_query_checked", "c06_reply_checked"}},
-	"C14": {Focus: "C14", Arms: []string{"stale", "faults"}, Rare: []string{"exhaust"}, RareEvery: 1500, Probes: []string{"c14_deadline_checked", "c14_liveness_checked", "c14_waiter_on_dead_conn"}},
+	"C14": {Focus: "C14", Arms: []string{"stale", "faults"}, Rare: []string{"exhaust"}, RareEvery: 1500, Probes: []string{"c14_deadline_checked", "c14_liveness_checked", "c14_waiter_on_dead_conn", "c14_waiter_on_reused_conn_checked"}},
 	"C20": {Focus: "C20", Arms: []string{"router", "xport", "prefetch", "cache"}, Race: true, Probes: []string{"content_checked", "c06_reply_checked"}},
 	"C15": {Focus: "C15", Arms: []string{"unit", "e2e"}, Probes: []string{"c15_decisions_compared", "c15_e2e_refused", "c15_e2e_admitted"}},
 	"C16": {Focus: "C16", Arms: []string{"clean"}, Probes: []string{"c16_tc_seen", "c16_tcp_outcome_returned", "c16_no_tc"}},
